@@ -274,6 +274,11 @@ func (t *Termer) term(v ssa.Value, ps *pathState) string {
 		switch x.Op {
 		case token.MUL:
 			inner := t.Term(x.X, ps)
+			if _, ok := x.X.(*ssa.FieldAddr); ok && ps != nil {
+				if v := ps.LoadVer[x]; v > 0 {
+					return inner + "§" + itoa(v) // the field as it is after its v-th store on this path
+				}
+			}
 			if strings.HasPrefix(inner, "local:") || strings.HasPrefix(inner, "fv:") || strings.HasPrefix(inner, "g:") {
 				return inner // a variable's value
 			}
@@ -580,6 +585,9 @@ func evalCmp(v int64, op token.Token, c int64) bool {
 type TabOpts struct {
 	Termer  *Termer
 	Stop    func(in ssa.Instruction, ps *pathState) bool // stop the path *before* executing in; path recorded with Stop=in
+	// StopGoesOn: Stop only records the path so far (with a snapshot of its state) and the walk goes on, so that an
+	// instruction inside a loop is seen on its first arrival and again in the generic later iteration
+	StopGoesOn bool
 	EventOf func(in ssa.Instruction, ps *pathState) (Event, bool)
 	// Assume lists literals taken as given (e.g. the abstract class under evaluation); paths contradicting them are pruned.
 	Assume []Lit
@@ -653,10 +661,72 @@ func EnumLits(start *ssa.BasicBlock, idx int, o TabOpts) ([]*LPath, bool) {
 		for i := idx; i < len(b.Instrs); i++ {
 			in := b.Instrs[i]
 			if o.Stop != nil && o.Stop(in, ps) {
-				out = append(out, &LPath{Lits: fr.lits, Unknown: fr.unknown, Events: fr.events, Stop: in, PS: ps})
-				return
+				if !o.StopGoesOn {
+					out = append(out, &LPath{Lits: fr.lits, Unknown: fr.unknown, Events: fr.events, Stop: in, PS: ps})
+					return
+				}
+				// observed, not stopped: the walk goes on and may arrive here again (a later iteration of a loop)
+				out = append(out, &LPath{Lits: fr.lits, Unknown: fr.unknown, Events: fr.events, Stop: in, PS: ps.clone()})
+			}
+			// field stores and the loads after them (see pathState.FVer)
+			switch x := in.(type) {
+			case *ssa.Store:
+				if fa, ok := x.Addr.(*ssa.FieldAddr); ok {
+					key := fieldPathKey(fa, ps)
+					if ps.FVer == nil {
+						ps.FVer = map[string]int{}
+					}
+					ps.FVer[key]++
+					if ps.FLast == nil {
+						ps.FLast = map[string]ssa.Value{}
+					}
+					ps.FLast[key] = ps.Resolve(x.Val)
+				}
+			case *ssa.UnOp:
+				if fa, ok := x.X.(*ssa.FieldAddr); ok && x.Op == token.MUL && len(ps.FVer) > 0 {
+					key := fieldPathKey(fa, ps)
+					if v := ps.FVer[key]; v > 0 {
+						if ps.LoadVer == nil {
+							ps.LoadVer = map[*ssa.UnOp]int{}
+						}
+						ps.LoadVer[x] = v
+						if last, ok := ps.FLast[key]; ok && !o.FieldCells {
+							if ps.Loaded == nil {
+								ps.Loaded = map[*ssa.UnOp]ssa.Value{}
+							}
+							ps.Loaded[x] = last
+						}
+					}
+				}
+			case ssa.CallInstruction:
+				if _, isB := x.Common().Value.(*ssa.Builtin); !isB && len(ps.FLast) > 0 {
+					ps.FLast = nil // the callee may have stored into the field as well: the value is not known any more
+				}
 			}
 			if o.FieldCells {
+				// a struct copied whole from one local to another (`sh := scanNumeric(s)` with the helper walked in
+				// place: its `return sh` is a load of its own local): the fields travel with it
+				if st, ok := in.(*ssa.Store); ok {
+					if dst, ok := st.Addr.(*ssa.Alloc); ok {
+						if ld, ok := ps.Resolve(st.Val).(*ssa.UnOp); ok && ld.Op == token.MUL {
+							if src, ok := ld.X.(*ssa.Alloc); ok && src != dst {
+								sp, dp := ps.fcKeyOf(src, ""), ps.fcKeyOf(dst, "")
+								if sp != "" && dp != "" && ps.FCells != nil {
+									for k := range ps.FCells {
+										if strings.HasPrefix(k, dp) {
+											delete(ps.FCells, k)
+										}
+									}
+									for k, v := range ps.FCells {
+										if strings.HasPrefix(k, sp) {
+											ps.FCells[dp+strings.TrimPrefix(k, sp)] = v
+										}
+									}
+								}
+							}
+						}
+					}
+				}
 				if st, ok := in.(*ssa.Store); ok {
 					if fa, ok := st.Addr.(*ssa.FieldAddr); ok {
 						if k := ps.fcKey(fa); k != "" {
@@ -1021,6 +1091,18 @@ func EnumLits(start *ssa.BasicBlock, idx int, o TabOpts) ([]*LPath, bool) {
 							delete(nps.Visits, ib)
 							delete(nps.Havoc, ib)
 						}
+						// what the loop stores into tracked fields is not known any more in "some later iteration"
+						if o.FieldCells && len(nps.FCells) > 0 {
+							for _, lin := range ib.Instrs {
+								if st, ok := lin.(*ssa.Store); ok {
+									if fa, ok := st.Addr.(*ssa.FieldAddr); ok {
+										if k := nps.fcKey(fa); k != "" {
+											delete(nps.FCells, k)
+										}
+									}
+								}
+							}
+						}
 					}
 				}
 				walk(s, 0, nps, nfr, true)
@@ -1098,6 +1180,26 @@ func (t *Termer) altLits(alt []boolAssign, lits []Lit, ps *pathState) ([]Lit, bo
 		nl = append(nl, l)
 	}
 	return nl, true
+}
+
+// fieldPathKey names the field a FieldAddr denotes on this path, for counting the stores into it.
+func fieldPathKey(fa *ssa.FieldAddr, ps *pathState) string {
+	base := ps.Resolve(fa.X)
+	switch b := base.(type) {
+	case *ssa.Parameter:
+		return "p:" + b.Parent().Name() + ":" + b.Name() + "." + fieldName(fa)
+	case *ssa.Alloc:
+		return "a:" + b.Parent().Name() + ":" + b.Name() + "." + fieldName(fa)
+	case *instAlloc:
+		return "i:" + itoa(b.inst) + ":" + b.Alloc.Name() + "." + fieldName(fa)
+	case *ssa.FreeVar:
+		return "fv:" + b.Parent().Name() + ":" + b.Name() + "." + fieldName(fa)
+	case *ssa.UnOp:
+		if fa2, ok := b.X.(*ssa.FieldAddr); ok {
+			return fieldPathKey(fa2, ps) + "." + fieldName(fa)
+		}
+	}
+	return "v:" + base.Name() + ":" + fieldName(fa)
 }
 
 const maxConcreteIter = 12
